@@ -165,9 +165,9 @@ def ivector_entry(ctx):
 
 
 GROUPS = [guard(ivector_entry), guard(gmm_fit), guard(map_prior_copy), guard(stats_ops), guard(scoring), guard(kmeans_entry)]
-SHARED = [("C02", "add_post", ["C02.add.frame", "C02.iadd.frame"]), ("C05", "mstep_map", ["C05.frame"]), ("C03", "mstep_ml", ["C03.m.frame"]),
+SHARED = [("C02", "add_post", ["C02.add.frame", "C02.iadd.frame"]), ("C05", "mstep_map", ["C05.frame", "C05.m.other"]), ("C03", "mstep_ml", ["C03.m.frame"]),
           ("C08", "post", ["C08.frame"])]
-REPLAY = [("C19.stats", "gmm_repro.py", "stats_add", {"inplace": True}), ("C19.fa", "fa_repro.py", "inputs_unchanged", {}), ("C19", "effects_repro.py", "inputs", {}), ("C0", "effects_repro.py", "inputs", {})]
+REPLAY = [("C19.stats", "gmm_repro.py", "stats_add", {"inplace": True}), ("C05", "gmm_repro.py", "map_mstep", {"fields": ["weights", "means"]}), ("C19.fa", "fa_repro.py", "inputs_unchanged", {}), ("C19", "effects_repro.py", "inputs", {}), ("C0", "effects_repro.py", "inputs", {})]
 TRUSTED = ["library table: arithmetic, np.where, vstack, np.array, .flatten(), copy.deepcopy, boolean/fancy indexing return fresh arrays; "
            "asarray, atleast_2d, .T, transpose, reshape, swapaxes, broadcast_to, basic slicing, .ravel() return views",
            "dask_ml k_init returns the caller's array for an ndarray init"]
